@@ -110,10 +110,17 @@ class Opt(Ty):
     def sort(self):
         k = self.key
         if k not in _sort_cache:
-            d = z3.Datatype("Opt_" + _mangle(self.inner))
-            d.declare("nil")
-            d.declare("some", ("val", self.inner.sort()))
-            _sort_cache[k] = d.create()
+            m = _mangle(self.inner)
+            d = z3.Datatype("Opt_" + m)
+            d.declare("nil_" + m)
+            d.declare("some_" + m, ("val_" + m, self.inner.sort()))
+            s = d.create()
+            s.nil = s.constructor(0)()
+            s.some = s.constructor(1)
+            s.val = s.accessor(1, 0)
+            s.is_nil = s.recognizer(0)
+            s.is_some = s.recognizer(1)
+            _sort_cache[k] = s
         return _sort_cache[k]
 
 
@@ -128,9 +135,12 @@ class Tuple(Ty):
     def sort(self):
         k = self.key
         if k not in _sort_cache:
-            d = z3.Datatype("Tup_" + "_".join(_mangle(i) for i in self.items))
-            d.declare("mk", *[(f"f{i}", t.sort()) for i, t in enumerate(self.items)])
-            _sort_cache[k] = d.create()
+            m = "_".join(_mangle(i) for i in self.items)
+            d = z3.Datatype("Tup_" + m)
+            d.declare("tup_" + m, *[(f"f{i}_{m}", t.sort()) for i, t in enumerate(self.items)])
+            s = d.create()
+            s.mk = s.constructor(0)
+            _sort_cache[k] = s
         return _sort_cache[k]
 
 
@@ -151,14 +161,20 @@ class Dict(Ty):
     def sort(self):
         kk = self.key
         if kk not in _sort_cache:
-            d = z3.Datatype("Dict_" + _mangle(self.k) + "_" + _mangle(self.v))
+            m = _mangle(self.k) + "_" + _mangle(self.v)
+            d = z3.Datatype("Dict_" + m)
             d.declare(
-                "mk",
-                ("dom", z3.ArraySort(self.k.sort(), z3.BoolSort())),
-                ("map", z3.ArraySort(self.k.sort(), self.v.sort())),
-                ("keys", z3.SeqSort(self.k.sort())),
+                "dict_" + m,
+                ("dom_" + m, z3.ArraySort(self.k.sort(), z3.BoolSort())),
+                ("map_" + m, z3.ArraySort(self.k.sort(), self.v.sort())),
+                ("keys_" + m, z3.SeqSort(self.k.sort())),
             )
-            _sort_cache[kk] = d.create()
+            s = d.create()
+            s.mk = s.constructor(0)
+            s.dom = s.accessor(0, 0)
+            s.map = s.accessor(0, 1)
+            s.keys = s.accessor(0, 2)
+            _sort_cache[kk] = s
         return _sort_cache[kk]
 
 
@@ -204,10 +220,16 @@ class Union(Ty):
     def sort(self):
         k = self.key
         if k not in _sort_cache:
-            d = z3.Datatype("Un_" + "_".join(_mangle(a) for a in self.alts))
+            m = "_".join(_mangle(a) for a in self.alts)
+            d = z3.Datatype("Un_" + m)
             for i, a in enumerate(self.alts):
-                d.declare(f"alt{i}", (f"v{i}", a.sort()))
-            _sort_cache[k] = d.create()
+                d.declare(f"alt{i}_{m}", (f"v{i}_{m}", a.sort()))
+            s = d.create()
+            for i, a in enumerate(self.alts):
+                setattr(s, f"alt{i}", s.constructor(i))
+                setattr(s, f"v{i}", s.accessor(i, 0))
+                setattr(s, f"is_alt{i}", s.recognizer(i))
+            _sort_cache[k] = s
         return _sort_cache[k]
 
 
